@@ -188,7 +188,7 @@ def argv_text(v):
     everything else JSON."""
     if isinstance(v, str):
         return v
-    return json.dumps(v)
+    return json.dumps(v, ensure_ascii=False)
 
 
 def to_argv(inputs, style="eq"):
